@@ -75,7 +75,10 @@ func onBest(t *chainx.Tree, nd *chainx.Node, id int) bool {
 
 // RunTree runs one tree/schedule with prunes interleaved.
 func RunTree(r *vh.Run, rng *vh.RNG, name string, t *chainx.Tree, sched [][]int) {
-	nd := t.Net.MustNode()   // pruned node
+	nd := t.Net.MustNode() // pruned node
+	if strings.HasSuffix(name, "/s0") || strings.HasPrefix(name, "directed/resubmit") {
+		nd = t.Net.NewProbedNode() // atomicity probe on the manager's store (chainx.ProbeStore)
+	}
 	twin := t.Net.MustNode() // receives the same submissions, never pruned
 	c := &vh.Case{Name: name, Model: "chain mgr"}
 	for _, b := range t.Blocks[1:] {
@@ -126,8 +129,15 @@ func RunTree(r *vh.Run, rng *vh.RNG, name string, t *chainx.Tree, sched [][]int)
 					c.Oracle("prune-panic", "PruneBlocks(%d) panicked: %v", h, rec)
 				}
 			}()
-			nd.CM.PruneBlocks(h)
+			if nd.Probe != nil {
+				nd.Probe.Every = 1
+				nd.Probe.Writer("PruneBlocks", func() { nd.CM.PruneBlocks(h) })
+				nd.Probe.Every = 5
+			} else {
+				nd.CM.PruneBlocks(h)
+			}
 		}()
+		c01.AuditProbe(c, nd)
 		c.Op(fmt.Sprintf("prune %d", h), c01.Observe(t, nd, "ok"))
 		prunes++
 		for _, b := range t.Blocks {
@@ -227,6 +237,7 @@ func RunTree(r *vh.Run, rng *vh.RNG, name string, t *chainx.Tree, sched [][]int)
 			fmt.Fprintf(&sb, " %d", id)
 		}
 		c.Op(sb.String(), c01.Observe(t, nd, res))
+		c01.AuditProbe(c, nd)
 		if res == "panic" {
 			c.Oracle("addblocks-panic-after-prune", "AddBlocks panicked on batch %v (pruned: %v)", batch, keys(pruned))
 			break
